@@ -628,6 +628,12 @@ pub fn run_check(def: &PropertyDef, tier: Tier, seed: u64) -> i32 {
         .prefix(&format!("sv-{}-", id))
         .tempdir()
         .expect("tempdir");
+    // every temporary directory of the workers, replays and their children goes below this
+    // run's directory (TMPDIR is inherited), so that it is removed with it - also what
+    // aborted crash children and killed workers leave behind
+    let scratch = tmp.path().join("tmp");
+    let _ = std::fs::create_dir_all(&scratch);
+    std::env::set_var("TMPDIR", &scratch);
     let mut children = vec![];
     for i in 0..n {
         let out = tmp.path().join(format!("shard-{i}.json"));
